@@ -67,12 +67,13 @@ def stage_rows(tr, name):
     return rows
 
 
-def statement(ctx, base_tr, var_tr, variants):
-    """compare at the stage before post-processing (the reagent template choice is exempt)"""
+def statement(ctx, base_tr, var_tr, variants, skip=0):
+    """compare at the stage before post-processing (the reagent template choice is exempt); the first `skip` rows of the
+    variant run are context rows that are not compared"""
     b = stage_rows(base_tr, "v_rb")
-    v = stage_rows(var_tr, "v_rb")
+    v = stage_rows(var_tr, "v_rb")[skip:]
     bf = base_tr["out"]
-    vf = var_tr["out"]
+    vf = var_tr["out"][skip:] if var_tr["out"] is not None else None
     if len(v) != len(variants) or vf is None:
         ctx.violation("variant-run-lost-rows", {"n": len(variants)}, str(var_tr["error"]), "balancing.py")
         return
@@ -126,6 +127,22 @@ def explore(ctx, n, compare=True):
         ctx.corr_break("Pipeline:run-raised", {"n": len(base)}, "model never raises", bt["error"] or vt["error"])
         return base, variants
     statement(ctx, bt, vt, variants)
+    # the same rows inside ONE batch processed by ONE worker (n_jobs=1: per-batch memos are really shared between rows), behind
+    # context rows that contain the same molecule strings with other multiplicities (A.A>>B, A>>B.B): the outcome of a row must
+    # not depend on what the batch contained before it
+    k = min(len(base), 60)
+    decoys = []
+    for s in base[:k]:
+        a, b = s.split(">>")
+        decoys += [a + "." + a + ">>" + b, a + ">>" + b + "." + b]
+    inbatch = [(i, "same-batch", s) for i, s in enumerate(base[:k])] + [v for v in variants if v[0] < k]
+    ct = pipeline.traced_run(decoys + [v[2] for v in inbatch], n_jobs=1)
+    if compare:
+        pipeline.compare_trace(ctx, ct)
+    if ct["out"] is None:
+        ctx.corr_break("Pipeline:run-raised", {"n": len(inbatch)}, "model never raises", ct["error"])
+    else:
+        statement(ctx, bt, ct, inbatch, skip=len(decoys))
     return base, variants
 
 
@@ -140,7 +157,9 @@ def run(ctx):
         "reactions of the shared workload whose outcome is input-balanced or rule-based, each rewritten as: RDKit random SMILES "
         "per molecule, kekulised form, random atom-map numbers, shuffled molecule order per side; base and variants run through "
         "the real pipeline (traced and compared with the Lean row machine); statement at the stage before post-processing: same "
-        "verdict (solved, method) and the same multiset of added molecules per side (canonical SMILES); final verdict equal "
+        "verdict (solved, method) and the same multiset of added molecules per side (canonical SMILES); final verdict equal; the "
+        "base rows and their variants are run once more inside one single-worker batch behind context rows with the same "
+        "molecule strings in other multiplicities (A.A>>B, A>>B.B) and must keep their outcome "
         "(non-trivial = rule-based base outcome; distinct by variant text and mode)",
         ["the choice of reagent template is exempt (comparison before post-processing)",
          "RDKit's respellings are trusted to denote the same molecule"],
